@@ -25,6 +25,7 @@ import (
 	"github.com/fatedier/frp/pkg/config/types"
 	v1 "github.com/fatedier/frp/pkg/config/v1"
 	"github.com/fatedier/frp/pkg/msg"
+	"github.com/fatedier/frp/pkg/util/util"
 	"github.com/fatedier/frp/server/controller"
 
 	"verifharness/hx"
@@ -477,7 +478,7 @@ func (w *world) harnessFail(what string) {
 	w.rec.fail("scripted-step-failed:"+w.label, what, "["+w.label+"] "+strings.Join(w.steps, "; "))
 }
 
-const noObs = "{| ob_sizes := []; ob_tcp := []; ob_udp := []; ob_names := []; ob_tbusy := []; ob_ubusy := [] |}"
+const noObs = "{| ob_sizes := []; ob_tcp := []; ob_udp := []; ob_names := []; ob_tbusy := []; ob_ubusy := []; ob_keys := [] |}"
 
 func usedPorts(m interface {
 	VerifSnapshot() ([]int, map[int]string, map[string]int)
@@ -537,8 +538,27 @@ func (w *world) observe() string {
 		live(w.rc.TCPGroupCtl.VerifC13Table()), live(w.rc.HTTPGroupCtl.VerifC13Table()), live(w.rc.TCPMuxGroupCtl.VerifC13Table()),
 		len(names), len(ss), total, quota,
 	}
-	return fmt.Sprintf("{| ob_sizes := %s; ob_tcp := %s; ob_udp := %s; ob_names := %s; ob_tbusy := %s; ob_ubusy := %s |}",
-		zlist(sizes), zlist(tu), zlist(uu), slist(names), zlist(tb), zlist(ub))
+	// the content of the keyed tables
+	keys := []string{}
+	for _, r := range w.rc.HTTPReverseProxy.VerifC10Routers().VerifC10Routes() {
+		keys = append(keys, "H|"+r)
+	}
+	for _, r := range w.rc.VhostHTTPSMuxer.VerifC10Routers().VerifC10Routes() {
+		keys = append(keys, "S|"+r)
+	}
+	for _, r := range w.rc.TCPMuxHTTPConnectMuxer.VerifC10Routers().VerifC10Routes() {
+		keys = append(keys, "M|"+r)
+	}
+	for _, n := range w.rc.VisitorManager.VerifC10Names() {
+		keys = append(keys, "V|"+n)
+	}
+	nat := w.rc.NatHoleController.VerifClientNames()
+	sort.Strings(nat)
+	for _, n := range nat {
+		keys = append(keys, "N|"+n)
+	}
+	return fmt.Sprintf("{| ob_sizes := %s; ob_tcp := %s; ob_udp := %s; ob_names := %s; ob_tbusy := %s; ob_ubusy := %s; ob_keys := %s |}",
+		zlist(sizes), zlist(tu), zlist(uu), slist(names), zlist(tb), zlist(ub), slist(keys))
 }
 
 func (w *world) emit(op string, out int, obs string) {
@@ -1065,4 +1085,24 @@ func loop(i int) string {
 		os.Exit(3)
 	})
 	return fmt.Sprintf("127.0.10.%d", blockBase+i)
+}
+
+
+// visitorInFlight: session c asks for a hole-punching session with the xtcp proxy `name` (a valid, signed
+// NatHoleVisitor).  The controller hands the session id to the proxy's goroutine, which then asks the owner
+// for a work connection and waits (UserConnTimeout) because the scripted owner does not answer.
+func (w *world) visitorInFlight(c int, name string) {
+	s := w.peers[c]
+	if s == nil {
+		return
+	}
+	ts := time.Now().Unix()
+	m := &msg.NatHoleVisitor{TransactionID: fmt.Sprintf("tx-%d", ts), ProxyName: name, Protocol: "quic",
+		SignKey: util.GetAuthKey("s3cret", ts), Timestamp: ts, MappedAddrs: []string{"198.51.100.7:40000"}}
+	if err := s.p.Send(m); err != nil {
+		w.harnessFail("cannot send NatHoleVisitor")
+		return
+	}
+	time.Sleep(150 * time.Millisecond)
+	w.rec.count("visitor-in-flight")
 }
